@@ -75,7 +75,8 @@ StrNat(s) == IF s = "" THEN 0 ELSE StrNat(SubSeq(s, 1, Len(s) - 1)) * 10 + Digit
 RECURSIVE LongDiv(_, _, _)
 LongDiv(r, n, k) == IF k = 0 THEN "" ELSE NatStr((r * 10) \div n) \o LongDiv((r * 10) % n, n, k - 1)
 RecipMatches(v, nstr) ==
-  IF Len(nstr) > 8 THEN TRUE
+  IF v = "1/" \o Canon(nstr) THEN TRUE          \* the model keeps the value of a fraction symbolic
+  ELSE IF Len(nstr) > 8 THEN TRUE
   ELSE LET n == StrNat(nstr) IN
        IF n = 0 THEN v = "inf"
        ELSE IF n = 1 THEN Canon(v) = "1"
